@@ -16,12 +16,13 @@ import (
 )
 
 // leaf functions of internal/xsync the lookup path may call (translated by go2lean: Gen.*)
-var tLeaf = map[string]int{"h1": 1, "h2": 1, "broadcast": 1, "markZeroBytes": 1, "firstMarkedByteIndex": 1}
+var tLeaf = map[string]int{"h1": 1, "h2": 1, "broadcast": 1, "markZeroBytes": 1, "firstMarkedByteIndex": 1,
+	"topHashMatch": 3, "derefKey": 1, "derefValue": 1}
 
 // package-level constants the lookup path may mention
-var tConst = map[string]bool{"metaMask": true, "entriesPerMapOfBucket": true, "defaultMeta": true, "defaultMetaMasked": true, "emptyMetaSlot": true}
+var tConst = map[string]bool{"metaMask": true, "entriesPerMapOfBucket": true, "defaultMeta": true, "defaultMetaMasked": true, "emptyMetaSlot": true, "entriesPerMapBucket": true}
 
-var tBin = map[token.Token]string{token.AND: ".and", token.XOR: ".xor", token.SUB: ".sub", token.NEQ: ".ne", token.EQL: ".eq", token.LAND: ".land"}
+var tBin = map[token.Token]string{token.AND: ".and", token.XOR: ".xor", token.SUB: ".sub", token.NEQ: ".ne", token.EQL: ".eq", token.LAND: ".land", token.LSS: ".lt"}
 
 var tOpAssign = map[token.Token]string{token.AND_ASSIGN: ".and", token.XOR_ASSIGN: ".xor", token.SUB_ASSIGN: ".sub"}
 
@@ -94,6 +95,9 @@ func (t *ttr) expr(e ast.Expr) string {
 		if x.Op == token.AND {
 			return "(.addr " + t.expr(x.X) + ")"
 		}
+		if x.Op == token.NOT {
+			return "(.not " + t.expr(x.X) + ")"
+		}
 		die("%s: unary operator %s outside the subset", pos(e), x.Op)
 	case *ast.SelectorExpr:
 		if id, ok := x.X.(*ast.Ident); ok && id.Name == t.recv && !t.isLocal(id.Name) {
@@ -121,10 +125,13 @@ func (t *ttr) expr(e ast.Expr) string {
 			return "(.atomicLoad \"Pointer\" " + t.expr(x.Args[0]) + ")"
 		case fn == "atomic.LoadUint64" && len(x.Args) == 1:
 			return "(.atomicLoad \"Uint64\" " + t.expr(x.Args[0]) + ")"
-		case fn == t.recv+".hasher" && len(x.Args) == 2:
+		case (fn == t.recv+".hasher" || fn == "hashString") && !t.isLocal(fn) && len(x.Args) == 2:
 			return fmt.Sprintf("(.hash %s %s)", t.expr(x.Args[0]), t.expr(x.Args[1]))
 		}
 		if n, ok := tLeaf[fn]; ok && !t.isLocal(fn) && len(x.Args) == n {
+			if n == 3 {
+				return fmt.Sprintf("(.call3 %s %s %s %s)", str(fn), t.expr(x.Args[0]), t.expr(x.Args[1]), t.expr(x.Args[2]))
+			}
 			return fmt.Sprintf("(.call1 %s %s)", str(fn), t.expr(x.Args[0]))
 		}
 		die("%s: call of %q outside the subset", pos(e), fn)
@@ -147,11 +154,21 @@ func seq(ss []string) string {
 func (t *ttr) block(b *ast.BlockStmt) string {
 	t.push()
 	defer t.pop()
+	return "(.block " + t.stmts(b.List) + ")"
+}
+
+// stmts: a statement list; a labelled statement takes the rest of its block with it (`goto L` jumps back to it)
+func (t *ttr) stmts(list []ast.Stmt) string {
 	var ss []string
-	for _, s := range b.List {
+	for i, s := range list {
+		if ls, ok := s.(*ast.LabeledStmt); ok {
+			rest := append([]ast.Stmt{ls.Stmt}, list[i+1:]...)
+			ss = append(ss, fmt.Sprintf("(.labeled %s %s)", str(ls.Label.Name), t.stmts(rest)))
+			return seq(ss)
+		}
 		ss = append(ss, t.stmt(s))
 	}
-	return "(.block " + seq(ss) + ")"
+	return seq(ss)
 }
 
 func (t *ttr) stmt(s ast.Stmt) string {
@@ -196,9 +213,31 @@ func (t *ttr) stmt(s ast.Stmt) string {
 			els = t.block(eb)
 		}
 		return fmt.Sprintf("(.ifThen %s %s %s)", c, thn, els)
+	case *ast.IncDecStmt:
+		if id, ok := x.X.(*ast.Ident); ok && x.Tok == token.INC && t.isLocal(id.Name) {
+			return "(.incr " + str(id.Name) + ")"
+		}
+		die("%s: inc/dec statement outside the subset", pos(s))
+	case *ast.BranchStmt:
+		switch {
+		case x.Tok == token.CONTINUE && x.Label == nil:
+			return ".continue"
+		case x.Tok == token.GOTO && x.Label != nil:
+			return "(.goto " + str(x.Label.Name) + ")"
+		}
+		die("%s: branch statement %s outside the subset", pos(s), x.Tok)
 	case *ast.ForStmt:
+		if x.Init != nil && x.Post != nil && x.Cond != nil {
+			// the loop variable lives in a scope around the loop
+			t.push()
+			defer t.pop()
+			init := t.stmt(x.Init)
+			c := t.expr(x.Cond)
+			post := t.stmt(x.Post)
+			return fmt.Sprintf("(.for3 %s %s %s %s)", init, c, post, t.block(x.Body))
+		}
 		if x.Init != nil || x.Post != nil {
-			die("%s: three-clause for outside the subset", pos(s))
+			die("%s: for with init or post only outside the subset", pos(s))
 		}
 		if x.Cond == nil {
 			return "(.forever " + t.block(x.Body) + ")"
@@ -248,11 +287,7 @@ func (t *ttr) funcDecl(fd *ast.FuncDecl) string {
 			}
 		}
 	}
-	var ss []string
-	for _, s := range fd.Body.List {
-		ss = append(ss, t.stmt(s))
-	}
-	return fmt.Sprintf("{ params := %s, results := %s, body := %s }", list(params), list(results), seq(ss))
+	return fmt.Sprintf("{ params := %s, results := %s, body := %s }", list(params), list(results), t.stmts(fd.Body.List))
 }
 
 func tableMain(repo, out string) {
@@ -262,7 +297,7 @@ func tableMain(repo, out string) {
 	for _, spec := range []struct {
 		file, recvType string
 		methods        []string
-	}{{"internal/xsync/mapof.go", "MapOf", []string{"Load"}}} {
+	}{{"internal/xsync/mapof.go", "MapOf", []string{"Load"}}, {"internal/xsync/map.go", "Map", []string{"Load"}}} {
 		f, err := parser.ParseFile(fset, filepath.Join(repo, spec.file), nil, 0)
 		if err != nil {
 			die("%v", err)
